@@ -104,10 +104,10 @@ def _run_variant(args):
             return (name, "problem", "variant does not compile: %s" % e)
         try:
             prog = model.Program(tmp)
-            mod = importlib.import_module("vf.props.%s" % prop.lower())
+            from . import runner
             run = report.Run(prop, "quick", tmp)
             run.only_rules = None
-            mod.check(prog, run)
+            runner.run_checks(prop, prog, run)
         except model.AnalysisError as e:
             if variant.expect is None:
                 return (name, "problem", "benign twin made the analysis fail: %s" % e)
@@ -159,10 +159,10 @@ def main(argv):
     rc = 0
     for p in props:
         prog = model.Program(a.root)
-        mod = importlib.import_module("vf.props.%s" % p.lower())
+        from . import runner
         run = report.Run(p, "quick", a.root)
         run.only_rules = None
-        mod.check(prog, run)
+        runner.run_checks(p, prog, run)
         problems = run_for(p, a.root, run)
         s = run.notes.get("sensitivity")
         if isinstance(s, dict):
